@@ -35,6 +35,7 @@ class FakeBinaryTherm:
                  faults=None):
         self.K, self.xe0, self.se, self.T0, self.xb, self.xlim, self.D, self.cb = K, xe0, se, T0, xb, xlim, D, cb
         self.per_phase = per_phase or {}
+        self.phases = list(phases)          # no precipitate named in a query = the first one (as the real backends do)
         self.faults = faults or FaultPlan()
         self.log = []            # (method, T or None)
         self.lookupT = []        # temperatures at which full interfacial-composition arrays were requested
@@ -49,6 +50,7 @@ class FakeBinaryTherm:
         self.log.append(("clearCache", None))
 
     def getDrivingForce(self, x, T, precPhase=None, removeCache=False, training=False):
+        precPhase = self.phases[0] if precPhase is None else precPhase
         self.log.append(("getDrivingForce", float(np.atleast_1d(T)[0])))
         from kawin.thermo.utils import _process_xT_arrays
         x, T = _process_xT_arrays(np.asarray(x, dtype=float), np.asarray(T, dtype=float), True)     # same input handling as the real backend
@@ -60,6 +62,7 @@ class FakeBinaryTherm:
         return np.squeeze(dg), np.squeeze(xb)
 
     def getInterfacialComposition(self, T, gExtra=0, precPhase=None):
+        precPhase = self.phases[0] if precPhase is None else precPhase
         g = np.asarray(gExtra, dtype=float)
         T = np.asarray(T, dtype=float)
         if g.ndim > 0 or T.ndim > 0:
